@@ -45,7 +45,15 @@ def c07(run):
     run.validate("maccmd", t, "Trace_maccmd", label="(V) command streams", chunk=5000)
     t = run.record("maccmd", "lookup")
     run.validate("maccmd", t, "Trace_maccmd", label="(V) registry sizes")
-    run.require_kinds("maccmd/enc", "maccmd/stream", "maccmd/lookup")
+    # registry: (D) all registration histories x streams; (R) every history in a fresh process; (V) random histories
+    rcases = os.path.join(run.scratch, "registry-cases.ndjson")
+    run.design_check("Registry", workers=1, env={"VERIF_REGHIST": T(run, "2", "3"), "VERIF_CASES": rcases})
+    dedupe_cases(rcases)
+    t = run.record("registry", "cases", cases=rcases)
+    run.validate("registry", t, "Trace_registry", label="(R) registry histories", group_on="reset", chunk=8000)
+    t = run.record("registry", "random", n=T(run, 200, 3000))
+    run.validate("registry", t, "Trace_registry", label="(V) random registry histories", group_on="reset", chunk=8000)
+    run.require_kinds("maccmd/enc", "maccmd/stream", "maccmd/lookup", "registry/register", "registry/pstream", "registry/lookup")
     run.rc = run.finish(assumptions=["projection table harness/proj_maccmd.go", "TLC + CommunityModules",
                                      "DON'T-CARE: RFU values inside a field's width (Version.Minor 2..15, ForceRejoinReq.RejoinType 1,3..7, DutyCycleReq 16..255, DeviceMode class 1,3..255)"])
 
